@@ -75,6 +75,9 @@ def run_case(kind, q):
         frame += a * masks.circular(centerX=p[1], centerY=p[0], imageSizeX=shape[1], imageSizeY=shape[0],
                                     radius=radius, antialiased=True)
     msgs = []
+    # the pattern object may have served frames of other shapes before
+    for s_ in q.get("prior_shapes", []):
+        cc.get_correlation(np.zeros(tuple(s_)), pattern)
     try:
         cm = cc.get_correlation(frame, pattern)
     except Exception as e:
@@ -117,6 +120,11 @@ def search(ctx, boost=1, focus=()):
         ks = sorted({1, len(pts), int(rng.integers(1, len(pts) + 1))})
         q = {"seed": int(rng.integers(1 << 30)), "pattern": pat, "shape": shape, "centres": pts.tolist(),
              "amps": amps.tolist(), "bg": float(rng.uniform(0, 5)), "ks": ks}
+        if k % 3 == 1:    # earlier frame whose rfft2 spectrum has the same shape (width 2n <-> 2n+1)
+            q["prior_shapes"] = [[shape[0], shape[1] + 1 if shape[1] % 2 == 0 else shape[1] - 1]]
+        elif k % 3 == 2:  # earlier, larger frame
+            q["prior_shapes"] = [[shape[0] + 2 * int(rng.integers(1, 5)) + int(rng.integers(0, 2)),
+                                  shape[1] + 2 * int(rng.integers(1, 5)) + int(rng.integers(0, 2))]]
         ctx.oracle_case("peaks", q, run_case("peaks", q), nontrivial=(shape[0] % 2 == 1 or shape[1] % 2 == 1))
         ctx.count("pattern_" + pat["kind"])
 
